@@ -187,6 +187,29 @@ NAME_CALLS = [
     "WrappedRecord(r)", "Selector('1')", "RecordDescriptor('x', [])", "r()", "Type()", "net()", "fields.__call__('x')",
 ]
 
+FIELD_TYPE_ROOTS = {"boolean", "command", "dynamic", "datetime", "filesize", "uint16", "uint32", "float", "string", "stringlist",
+                    "dictlist", "unix_file_mode", "varint", "wstring", "uri", "digest", "bytes", "record", "path", "net"}
+
+
+def _builtin_name_calls():
+    """Every public builtin as a call target (with a canary callable as key= / first argument where that is how the
+    builtin would call back), except the four the statement allows and the interactive ones."""
+    import builtins
+
+    skip = {"str", "repr", "any", "all", "exit", "quit", "input", "breakpoint", "help", "copyright", "credits", "license", "open",
+            "print", "exec", "eval", "compile", "__import__"}
+    out = []
+    for n in sorted(dir(builtins)):
+        if n.startswith("_") or n in skip or not callable(getattr(builtins, n)) or n[0].isupper():
+            continue
+        if n in FIELD_TYPE_ROOTS:
+            continue  # float(..), bytes(..) in a selector are the whitelisted field-type constructors, not the builtins
+        out += ["%s(1)" % n, "%s([1], key=r.c.m)" % n, "%s(r.c.m, [1])" % n]
+    return out
+
+
+NAME_CALLS += _builtin_name_calls()
+
 DUNDERS = [
     "r.__class__", "r.c.__dict__", "r.s.__class__.__mro__", "Type.__class__", "lower.__globals__",
     "r._desc.__init__", "name.__code__", "r.c.a.__class__", "str(r).__class__", "(r.s + 'x').__class__",
